@@ -79,10 +79,16 @@ def _corpus_programs():
         ps.append({"op": "mutation", "fields": [F(0, "C", ["list", pos == 1, "abs", items], nn=(pos == 2)), F(3, "C", I(3))]})
     ps.append({"op": "mutation", "fields": [F(0, "S", ["obj", [F(1, "D", ["list", True, "abs", [["obj", [F(2, "C", I(2))]], ["bad"]]])]]),
                                             F(3, "S", I(3)), F(4, "C", ["list", False, "abs", [["bad"]]])]})
-    # "1..n top-level fields" for a large n: 500 aliases of one synchronously resolved field
-    # (witness of the open finding serial-chain-recursion-large-mutation)
-    ps.append({"op": "mutation", "fields": [F(k, "S", I(k % 7)) for k in range(500)]})
     return ps
+
+
+def _large_programs():
+    """ "1..n top-level fields" for large n (witnesses of the defect repaired by /repo 0b6c9fe: the
+    generic executor nested one call per synchronously resolved top-level field): 500 aliases of one
+    synchronous field; 400 fields alternating synchronous / deferred"""
+    I = lambda z: ["int", z]  # noqa
+    return [{"op": "mutation", "fields": [F(k, "S", I(k % 7)) for k in range(500)]},
+            {"op": "mutation", "fields": [F(k, "S" if k % 2 == 0 else ("C" if k % 4 == 1 else "P"), I(k % 5)) for k in range(400)]}]
 
 
 LAYOUT_CYCLE = ["distinct", "shared", "mutnested", "shared"]
@@ -92,6 +98,8 @@ def corpus():
     out = []
     for i, p in enumerate(_corpus_programs()):
         out.extend(c08._cases_for(p, 720, 20, i))
+    for i, p in enumerate(_large_programs()):   # no eager exploration here: 2^200 subsets
+        out.extend(c08._cases_for(p, 4, 2, 100 + i, configs=("bexec", "brt", "aio", "aiot", "pool", "prom")))
     return out
 
 
@@ -176,10 +184,6 @@ def _serial_violation(prog, events):
 
 def classify(case, obs):
     prog = case["prog"]
-    if (prog["op"] == "mutation" and len(prog["fields"]) >= 200 and case["config"] != "bexec"
-            and all(r.get("fail_other") == "RecursionError" for r in obs["runs"])):
-        # exactly: a large mutation fails with RecursionError under the generic executor
-        return "serial execution recurses once per top-level field", "serial-chain-recursion-large-mutation"
     for r in obs["runs"]:
         if prog["op"] == "mutation" and _serial_violation(prog, r.get("events", [])):
             return "later top-level field invoked before the earlier one (and its sub-selection) finished", None
